@@ -42,8 +42,9 @@ Definition ds_size (s : size) : Prop := ds_ext (sw s) /\ ds_ext (sh s).
 Definition ds_rect (r : rect) : Prop := ds_point (tl r) /\ ds_size (sz r).
 Definition ds_line (l : line) : Prop := ds_point (l_start l) /\ ds_point (l_end l).
 Definition ds_offset (n : Z) : Prop := - ds_wmax <= n <= ds_wmax.
-(* vertices of the edge lines of a thick segment: at most the stroke width away from the segment *)
-Definition edge_max : Z := ds_max + 2 * ds_wmax.
+(* vertices of the edge lines of a thick segment: Line::extents stays within 6w+8 of the segment
+   (C07_join_extents_within), i.e. within 1024 + 6*128 + 8 = 1800 at display scale *)
+Definition edge_max : Z := ds_max + 6 * ds_wmax + 8.
 Definition edge_point (p : point) : Prop := - edge_max <= px p <= edge_max /\ - edge_max <= py p <= edge_max.
 Definition edge_line (l : line) : Prop := edge_point (l_start l) /\ edge_point (l_end l).
 
@@ -399,8 +400,11 @@ Definition parallels_new_ok (l0 : line) (t : Z) : bool :=
   let par := bparams_new l in
   let perp := bparams_new (perpendicular l) in
   bparams_new_ok l && perpendicular_ok l && bparams_new_ok (perpendicular l) &&
-  (* (i64::from(thickness) * 2).pow(2) * i64::from(line.delta().length_squared()) *)
-  i64 (t * 2) && i64 ((t * 2) * (t * 2)) && line_delta_ok l && length_squared_ok (line_delta l) &&
+  (* delta = line.delta(); length_squared = i64::from(delta.x).pow(2) + i64::from(delta.y).pow(2);
+     (i64::from(thickness) * 2).pow(2) * length_squared   (thick_points.rs:98-100, 64 bit since ebfcc70) *)
+  line_delta_ok l && i64 (px (line_delta l) * px (line_delta l)) && i64 (py (line_delta l) * py (line_delta l)) &&
+  i64 (length_squared (line_delta l)) &&
+  i64 (t * 2) && i64 ((t * 2) * (t * 2)) &&
   i64 (thickness_threshold l0 t) &&
   (* (error_step.minor + error_step.major) / 2 *)
   i32 (error_step_minor par + error_step_major par) &&
@@ -475,17 +479,33 @@ Definition join_point (second first : line) : option point :=
   | Some p => Some (if nearly_colinear second first then l_end first else p)
   | None => None
   end.
-(* line_join.rs:296 intersections(first_left, first_right, second_left, second_right) + the self-intersection
-   test and the miter test of from_points, given the four edge lines (Line::extents is not modelled).
-   Both sides are checked (the code evaluates the miter length of the outer side only). *)
+(* linear_equation.rs:52 value of distance *)
+Definition le_point_dist (l : line) (p : point) : Z := dot_product p (le_normal l) - le_distance l.
+(* line_join.rs:296 intersections(first_left, first_right, second_left, second_right), then the self-intersection
+   test and the miter test of LineJoin::from_points (line_join.rs:127), given the four edge lines, with the
+   control flow of the code: outer side = sign of the first denominator; only that side's check_side and miter
+   length are evaluated, the latter only when the segments do not self-intersect *)
 Definition join_edges_ok (fl fr sl sr : line) (mid : point) (width : Z) : bool :=
-  from_lines_ok sl fl && ip_intersection_ok sl fl && nearly_colinear_ok sl fl &&
-  from_lines_ok sr fr && ip_intersection_ok sr fr && nearly_colinear_ok sr fr &&
-  from_line_ok fl && le_point_distance_ok fl (l_end sl) &&
-  from_line_ok fr && le_point_distance_ok fr (l_end sr) &&
-  match join_point sl fl, join_point sr fr with
-  | Some li, Some ri => miter_ok li mid width && miter_ok ri mid width
-  | _, _ => true
+  from_lines_ok sl fl && ip_intersection_ok sl fl &&
+  match ip_intersection sl fl with
+  | None => true
+  | Some _ =>
+      nearly_colinear_ok sl fl && from_lines_ok sr fr && ip_intersection_ok sr fr &&
+      match ip_intersection sr fr with
+      | None => true
+      | Some _ =>
+          nearly_colinear_ok sr fr &&
+          let outer_left := ip_denominator sl fl <? 0 in
+          (if outer_left then from_line_ok fr && le_point_distance_ok fr (l_end sr)
+           else from_line_ok fl && le_point_distance_ok fl (l_end sl)) &&
+          let self_intersection :=
+            if outer_left then le_point_dist fr (l_end sr) <=? 0 else 0 <=? le_point_dist fl (l_end sl) in
+          if self_intersection then true
+          else match (if outer_left then join_point sl fl else join_point sr fr) with
+               | Some q => miter_ok q mid width
+               | None => true
+               end
+      end
   end.
 
 (* =========================================================================================== *)
@@ -684,6 +704,40 @@ Definition cropped_next_ok (s : crop_st) : bool :=
   else if cs_x s <? cs_w s then u32 (cs_x s + 1) else u32 (cs_y s + 1).
 
 (* =========================================================================================== *)
+(* documented panics and constant indices (formerly unmodelled)                                  *)
+(* =========================================================================================== *)
+(* indexing a fixed-size array / slice of length len at idx *)
+Definition index_ok (len idx : Z) : bool := (0 <=? idx) && (idx <? len).
+(* point.rs:393 Index<usize> for Point, size.rs:328 Index<usize> for Size: `_ => panic!("index out of bounds")`:
+   precondition idx < 2 *)
+Definition point_index_ok (idx : Z) : bool := index_ok 2 idx.
+(* point.rs:417,423 / size.rs:344,350 From<[T; 2]>, From<&[T; 2]> (and the nalgebra Vector2 variants 509,519 / 387,397):
+   other[0], other[1] on a two element array *)
+Definition from_array2_ok : bool := index_ok 2 0 && index_ok 2 1.
+(* point.rs:449-487 TryFrom conversions: try_into() returns a Result, no panic site *)
+Definition try_from_ok : bool := true.
+(* triangle/mod.rs:170 Triangle::from_slice: panics unless the slice has exactly three points *)
+Definition tri_from_slice_ok (len : Z) : bool := len =? 3.
+(* triangle/mod.rs:188 sorted_clockwise: area_doubled(); vertices[1], [0], [2] on [Point; 3] *)
+Definition sorted_clockwise_ok (p1 p2 p3 : point) : bool :=
+  area_doubled_ok p1 p2 p3 && index_ok 3 1 && index_ok 3 0 && index_ok 3 2.
+(* triangle/mod.rs:249 is_collapsed, one join i (0..2): vertices[(i + 1) % 3], vertices[(i + 2) % 3] (usize);
+   LinearEquation::from_line(&opposite).check_side(inner_point, Left) with the opposite edge's right extent and the
+   inner corner of the join (the three joins and the extents are join_from_points_ok / extents_ok of OverflowWalk) *)
+Definition is_collapsed_step_ok (um i : Z) (opposite : line) (inner : point) : bool :=
+  usz um (i + 1) && index_ok 3 ((i + 1) mod 3) && usz um (i + 2) && index_ok 3 ((i + 2) mod 3) &&
+  from_line_ok opposite && le_point_distance_ok opposite inner.
+(* image_raw.rs:174 ImageRaw::new_const: panics exactly when ImageRaw::new answers Err(InvalidDataSize) *)
+Definition image_new_const_ok (um w h bpp len : Z) : bool :=
+  image_new_ok um w h bpp && (len =? bytes_per_row w bpp * h).
+(* linear_equation.rs:78 OriginLinearEquation::with_angle: the trigonometry (angle.cos() * Real::from(SCALE) -> i32)
+   is an external call; its integer part: Point::new(0, -NORMAL_VECTOR_SCALE) or Point::new(c, s).rotate_90(),
+   with c, s the scaled cosine / sine handed back by `Real` *)
+Definition normal_vector_scale : Z := 1024.
+Definition with_angle_ok (is_180 : bool) (c s : Z) : bool :=
+  if is_180 then i32 (- normal_vector_scale) else rotate_90_ok (P c s).
+
+(* =========================================================================================== *)
 (* The tie to the source: the skeleton (translate/gen_arith.py) each predicate was written against.   *)
 (* (file, function, skeleton, the predicate that models its sites).  Regenerate with             *)
 (* translate/record_skeletons.py AFTER re-reading the changed function and updating its predicate. *)
@@ -705,7 +759,17 @@ Definition recorded : list (string * string * string * string) := [
   ("core/src/geometry/point.rs", "MulAssign for Point::mul_assign", "mul= mul=", "point_mul_ok");
   ("core/src/geometry/point.rs", "Div for Point::div", "div div", "point_div_ok");
   ("core/src/geometry/point.rs", "DivAssign for Point::div_assign", "div= div=", "point_div_ok");
+  ("core/src/geometry/point.rs", "Index for Point::index", "0 1 panic!", "point_index_ok");
   ("core/src/geometry/point.rs", "Neg for Point::neg", "neg neg", "point_neg_ok");
+  ("core/src/geometry/point.rs", "From for Point::from#2", "index 0 index 1", "from_array2_ok");
+  ("core/src/geometry/point.rs", "From for Point::from#3", "index 0 index 1", "from_array2_ok");
+  ("core/src/geometry/point.rs", "TryFrom for ( u32 , u32 )::try_from", "( .try_into .try_into )", "try_from_ok");
+  ("core/src/geometry/point.rs", "TryFrom for Point::try_from", "0 .try_into 1 .try_into", "try_from_ok");
+  ("core/src/geometry/point.rs", "TryFrom for [ u32 ; 2 ]::try_from", ".try_into .try_into", "try_from_ok");
+  ("core/src/geometry/point.rs", "TryFrom for Point::try_from#2", "index 0 .try_into index 1 .try_into", "try_from_ok (and from_array2_ok)");
+  ("core/src/geometry/point.rs", "TryFrom for Point::try_from#3", "index 0 .try_into index 1 .try_into", "try_from_ok (and from_array2_ok)");
+  ("core/src/geometry/point.rs", "From for Point::from#4", "index 0 index 1", "from_array2_ok");
+  ("core/src/geometry/point.rs", "From for Point::from#5", "index 0 index 1", "from_array2_ok");
   ("core/src/geometry/size.rs", "Size::saturating_add", ".saturating_add( ) .saturating_add( )", "size_saturating_ok");
   ("core/src/geometry/size.rs", "Size::saturating_sub", ".saturating_sub( ) .saturating_sub( )", "size_saturating_ok");
   ("core/src/geometry/size.rs", "Size::div_u32", "div div", "size_div_ok");
@@ -719,6 +783,11 @@ Definition recorded : list (string * string * string * string) := [
   ("core/src/geometry/size.rs", "Mul for Size::mul", "mul mul", "size_mul_ok");
   ("core/src/geometry/size.rs", "MulAssign for Size::mul_assign", "mul= mul=", "size_mul_ok");
   ("core/src/geometry/size.rs", "DivAssign for Size::div_assign", "div= div=", "size_div_ok");
+  ("core/src/geometry/size.rs", "Index for Size::index", "0 1 panic!", "point_index_ok");
+  ("core/src/geometry/size.rs", "From for Size::from#2", "index 0 index 1", "from_array2_ok");
+  ("core/src/geometry/size.rs", "From for Size::from#3", "index 0 index 1", "from_array2_ok");
+  ("core/src/geometry/size.rs", "From for Size::from#4", "index 0 index 1", "from_array2_ok");
+  ("core/src/geometry/size.rs", "From for Size::from#5", "index 0 index 1", "from_array2_ok");
   ("core/src/primitives/rectangle/mod.rs", "center_offset", ".saturating_sub( 1 ) 2", "center_offset_ok");
   ("core/src/primitives/rectangle/mod.rs", "Rectangle::center", "add", "center_ok");
   ("core/src/primitives/rectangle/mod.rs", "Rectangle::bottom_right", "0 0 add sub 1 1", "bottom_right_ok");
@@ -755,6 +824,7 @@ Definition recorded : list (string * string * string * string) := [
   ("src/primitives/rounded_rectangle/corner_radii.rs", "CornerRadii::confine", "0 0 add add add add ( ) ( ) ( ) ( ) ( 0 u64::from( ) mul u64::from( ) u64::from( ) mul u64::from( ) ) 0 ( mul ) div ( mul ) div ( mul ) div ( mul ) div", "confine_ok");
   ("src/primitives/line/mod.rs", "Line::with_delta", "add add", "point_add_ok");
   ("src/primitives/line/mod.rs", "Line::perpendicular", "sub neg add", "perpendicular_ok");
+  ("src/primitives/line/mod.rs", "Line::extents", ".saturating_as add ( ) ( ) ( ) ( ) ( ) ( ) ( ) ( ) ( ) ( ) 0 0 sub add sub 1 add sub 1 ( )", "OverflowWalk.extents_ok");
   ("src/primitives/line/mod.rs", "Line::midpoint", "add ( sub ) div 2", "midpoint_ok");
   ("src/primitives/line/mod.rs", "Line::delta", "sub", "line_delta_ok");
   ("src/primitives/line/mod.rs", "Transform for Line::translate", "add add", "point_add_ok");
@@ -768,16 +838,20 @@ Definition recorded : list (string * string * string * string) := [
   ("src/primitives/line/bresenham.rs", "Bresenham::next_all", "add= sub= add= sub= add= add=", "next_all_ok");
   ("src/primitives/line/bresenham.rs", "Bresenham::previous_all", "neg sub= add= sub= add= sub= sub=", "previous_all_ok");
   ("src/primitives/line/bresenham.rs", "major_length", "( sub ) .abs as:u32 add 1", "major_length_ok");
-  ("src/primitives/line/thick_points.rs", "ParallelsIterator::new", "( i64::from( ) mul 2 ) .pow( 2 ) mul i64::from( ) ( add ) div 2 neg 0 0 .swap", "parallels_new_ok");
-  ("src/primitives/line/thick_points.rs", "Iterator for ParallelsIterator::next", "i64::from( ) .pow( 2 ) ( ) add= ( ) add= ( ) .swap", "parallels_next_ok");
-  ("src/primitives/line/thick_points.rs", "Iterator for ThickPoints::next", "0 sub= 1 ( ) sub= 1", "thick_points_next_ok");
+  ("src/primitives/line/thick_points.rs", "ParallelsIterator::new", "i64::from( ) .pow( 2 ) add i64::from( ) .pow( 2 ) ( i64::from( ) mul 2 ) .pow( 2 ) mul ( add ) div 2 neg 0 0 .swap", "parallels_new_ok, OverflowWalk.parallels_new_so_ok");
+  ("src/primitives/line/thick_points.rs", "Iterator for ParallelsIterator::next", "i64::from( ) .pow( 2 ) ( ) add= ( ) add= ( ) .swap", "parallels_next_ok, OverflowWalk.parallels_step_ok");
+  ("src/primitives/line/thick_points.rs", "Iterator for ThickPoints::next", "0 sub= 1 ( ) sub= 1", "thick_points_next_ok, OverflowWalk.thick_points_ok");
   ("src/primitives/line/intersection_params.rs", "IntersectionParams::nearly_colinear_has_error", "i64::from( ) .pow( 2 ) i64::from( ) .abs", "nearly_colinear_ok");
   ("src/primitives/line/intersection_params.rs", "IntersectionParams::intersection", "0 0 i64::from( ) ( ) 0 ( neg neg ) ( ) ( add div 2 ) .div_euclid( ) .saturating_as ( ) ( ) i64::from( 0 ) mul i64::from( 1 ) sub i64::from( 1 ) mul i64::from( 0 ) ( ) ( ) ( )", "ip_intersection_ok");
   ("src/primitives/common/linear_equation.rs", "const NORMAL_VECTOR_SCALE", "1 shl 10", "constant item, evaluated by rustc");
   ("src/primitives/common/linear_equation.rs", "LinearEquation::distance", "sub", "le_point_distance_ok");
-  ("src/primitives/common/line_join.rs", "LineJoin::from_points", "( ) ( ) ( ) sub i64::from( ) .pow( 2 ) add i64::from( ) .pow( 2 ) ( i64::from( ) mul 2 ) .pow( 2 )", "miter_ok");
+  ("src/primitives/common/linear_equation.rs", "OriginLinearEquation::with_angle", "f180.0 0 neg i32::from( mul Real::from( ) ) i32::from( mul Real::from( ) )", "with_angle_ok");
+  ("src/primitives/common/line_join.rs", "LineJoin::from_points", "( ) ( ) ( ) sub i64::from( ) .pow( 2 ) add i64::from( ) .pow( 2 ) ( i64::from( ) mul 2 ) .pow( 2 )", "miter_ok, join_edges_ok, OverflowWalk.join_from_points_ok");
   ("src/primitives/triangle/mod.rs", "ContainsPoint for Triangle::contains", "mul sub mul add ( sub ) mul add ( sub ) mul mul sub mul add ( sub ) mul add ( sub ) mul ( 0 ) ( 0 ) 0 0 0 0 add 0 0 add", "triangle_contains_ok");
+  ("src/primitives/triangle/mod.rs", "Triangle::from_slice", "panic!", "tri_from_slice_ok");
   ("src/primitives/triangle/mod.rs", "Triangle::area_doubled", "neg mul add mul ( sub ) add mul ( sub ) add mul", "area_doubled_ok");
+  ("src/primitives/triangle/mod.rs", "Triangle::sorted_clockwise", "0 index 1 index 0 index 2", "sorted_clockwise_ok");
+  ("src/primitives/triangle/mod.rs", "Triangle::is_collapsed", "( ) index ( add 1 ) rem 3 index ( add 2 ) rem 3 1", "is_collapsed_step_ok");
   ("src/primitives/triangle/mod.rs", "Transform for Triangle::translate_mut", "add=", "point_add_ok");
   ("src/mono_font/mono_text_style.rs", "MonoTextStyle::line_elements", "as:i32 as:i32 add= ( ) add= ( ) ( )", "line_elements_ok");
   ("src/mono_font/mono_text_style.rs", "MonoTextStyle::baseline_offset", "0 .saturating_sub( 1 ) .saturating_as ( .saturating_sub( 1 ) div 2 ) .saturating_as .saturating_as", "baseline_offset_ok");
@@ -790,6 +864,7 @@ Definition recorded : list (string * string * string * string) := [
   ("src/text/text.rs", "Text::line_height", ".saturating_as", "line_height_ok");
   ("src/text/text.rs", "Text::lines", "sub ( sub 1 0 ) sub ( sub 1 0 ) div 2 add= ( )", "text_line_ok");
   ("src/image/image_raw.rs", "ImageRaw::new", "mul as:usize", "image_new_ok");
+  ("src/image/image_raw.rs", "ImageRaw::new_const", "panic!", "image_new_const_ok");
   ("src/image/image_raw.rs", "ImageRaw::data_width", "8 8 div as:u32 as:u32 mul", "data_width_ok");
   ("src/image/image_raw.rs", "bytes_per_row", "( as:usize mul add 7 ) div 8", "bytes_per_row_ok");
   ("src/image/image_raw.rs", "ImageDrawable for ImageRaw::draw", "sub 0 as:usize", "image_draw_ok");
@@ -802,27 +877,7 @@ Definition recorded : list (string * string * string * string) := [
 ].
 
 Definition unmodelled_fns : list (string * string) := [
-  ("core/src/geometry/point.rs", "Index for Point::index");   (* point.rs:393  0 1 panic! *)
-  ("core/src/geometry/point.rs", "From for Point::from#2");   (* point.rs:417  index 0 index 1 *)
-  ("core/src/geometry/point.rs", "From for Point::from#3");   (* point.rs:423  index 0 index 1 *)
-  ("core/src/geometry/point.rs", "TryFrom for ( u32 , u32 )::try_from");   (* point.rs:449  ( .try_into .try_into ) *)
-  ("core/src/geometry/point.rs", "TryFrom for Point::try_from");   (* point.rs:457  0 .try_into 1 .try_into *)
-  ("core/src/geometry/point.rs", "TryFrom for [ u32 ; 2 ]::try_from");   (* point.rs:468  .try_into .try_into *)
-  ("core/src/geometry/point.rs", "TryFrom for Point::try_from#2");   (* point.rs:476  index 0 .try_into index 1 .try_into *)
-  ("core/src/geometry/point.rs", "TryFrom for Point::try_from#3");   (* point.rs:487  index 0 .try_into index 1 .try_into *)
-  ("core/src/geometry/point.rs", "From for Point::from#4");   (* point.rs:509  index 0 index 1 *)
-  ("core/src/geometry/point.rs", "From for Point::from#5");   (* point.rs:519  index 0 index 1 *)
-  ("core/src/geometry/size.rs", "Index for Size::index");   (* size.rs:328  0 1 panic! *)
-  ("core/src/geometry/size.rs", "From for Size::from#2");   (* size.rs:344  index 0 index 1 *)
-  ("core/src/geometry/size.rs", "From for Size::from#3");   (* size.rs:350  index 0 index 1 *)
-  ("core/src/geometry/size.rs", "From for Size::from#4");   (* size.rs:387  index 0 index 1 *)
-  ("core/src/geometry/size.rs", "From for Size::from#5");   (* size.rs:397  index 0 index 1 *)
-  ("src/primitives/line/mod.rs", "Line::extents");   (* mod.rs:110  .saturating_as add ( ) ( ) ( ) ( ) ( ) ( ) ( ) ( ) ( ) ( ) 0 0 sub add sub 1 add sub 1 ( ) *)
-  ("src/primitives/common/linear_equation.rs", "OriginLinearEquation::with_angle");   (* linear_equation.rs:78  f180.0 0 neg i32::from( mul Real::from( ) ) i32::from( mul Real::from( ) ) *)
-  ("src/primitives/triangle/mod.rs", "Triangle::from_slice");   (* mod.rs:170  panic! *)
-  ("src/primitives/triangle/mod.rs", "Triangle::sorted_clockwise");   (* mod.rs:188  0 index 1 index 0 index 2 *)
-  ("src/primitives/triangle/mod.rs", "Triangle::is_collapsed");   (* mod.rs:249  ( ) index ( add 1 ) rem 3 index ( add 2 ) rem 3 1 *)
-  ("src/image/image_raw.rs", "ImageRaw::new_const")   (* image_raw.rs:174  panic! *)
+
 ].
 
 (* a skeleton made of integer literals (and grouping parentheses) only has no operation that could panic *)
